@@ -395,7 +395,23 @@ static void dmp_case(Report & rep, Rng & r, int n, int nv)
       dA(i, j) = r.coin(0.1) ? 0 : r.sym();
       dB(i, j) = r.coin(0.1) ? 0 : sc * r.sym();
     }
-  const auto got = smooth::d_matrix_product(A, dA, B, dB);
+  // the arguments are Eigen expressions: plain matrices, row-major copies or block views of larger matrices
+  const int form = r.below(3);
+  Eigen::MatrixXd got;
+  if (form == 0) {
+    got = smooth::d_matrix_product(A, dA, B, dB);
+  } else if (form == 1) {
+    using RM = Eigen::Matrix<double, -1, -1, Eigen::RowMajor>;
+    const RM Ar = A, Br = B, dAr = dA, dBr = dB;
+    got = smooth::d_matrix_product(Ar, dAr, Br, dBr);
+  } else {
+    Eigen::MatrixXd bA = Eigen::MatrixXd::Constant(n + 2, n + 1, 9.5), bB = bA, bdA = Eigen::MatrixXd::Constant(n + 3, n * nv + 2, -4.5), bdB = bdA;
+    bA.topLeftCorner(n, n)        = A;
+    bB.topLeftCorner(n, n)        = B;
+    bdA.topLeftCorner(n, n * nv)  = dA;
+    bdB.topLeftCorner(n, n * nv)  = dB;
+    got = smooth::d_matrix_product(bA.topLeftCorner(n, n), bdA.topLeftCorner(n, n * nv), bB.topLeftCorner(n, n), bdB.topLeftCorner(n, n * nv));
+  }
   // definition: X(i,j) with dX(j, i*nv + k) = d X(i,j) / d x_k
   Mat ref(n, n * nv);
   const Mat Al = toL(A), Bl = toL(B), dAl = toL(dA), dBl = toL(dB);
@@ -406,7 +422,7 @@ static void dmp_case(Report & rep, Rng & r, int n, int nv)
         for (int m = 0; m < n; ++m) s += dAl(m, i * nv + k) * Bl(m, j) + Al(i, m) * dBl(j, m * nv + k);
         ref(j, i * nv + k) = s;
       }
-  const std::string st = std::string(N > 0 ? "static" : "dynamic") + ",n=" + std::to_string(n) + ",nvar=" + std::to_string(nv);
+  const std::string st = std::string(N > 0 ? "static" : "dynamic") + (form == 1 ? ",rowmajor" : (form == 2 ? ",blockview" : "")) + ",n=" + std::to_string(n) + ",nvar=" + std::to_string(nv);
   rep.note_input(Report::hash_vec(Eigen::Map<Eigen::VectorXd>(A.data(), A.size())), true);
   rep.judge("d_matrix_product", st, orc::err_relmax(toL(got), ref), 1e-12L, [&]() {
     return JObj().integer("n", n).integer("nvar", nv).raw("A", hexv(Eigen::Map<Eigen::VectorXd>(A.data(), A.size())))
